@@ -3,7 +3,10 @@
  * postcondition (ghost capture at the end of the body, rule R21c): the evaluation loop consumes the table exactly and fills the member
  * array exactly -- C01 (series coefficient tables), C13 (every table read and array write in bounds).  The coefficient VALUES are not decided. */
 /*@ capture-end cap_o=o:int cap_k=k:int cap_size=(int)(sizeof(coeff)/sizeof(coeff[0])):int */
-/*@ clause frame src=code props=C13 */
-__CPROVER_assigns(__CPROVER_object_whole(self->_aA3x), cap_o, cap_k, cap_size)
-/*@ clause post.table_consumed src=code-comment props=C01,C13 */
+/*@ clause frame src=code props=C13 only=enforce */
+__CPROVER_assigns(__CPROVER_object_upto(self->_aA3x, sizeof(self->_aA3x)), cap_o, cap_k, cap_size)
+/*@ clause frame.caller src=code only=replace */
+/* what a caller sees: the member array only (the ghost captures are not the caller's business) */
+__CPROVER_assigns(__CPROVER_object_upto(self->_aA3x, sizeof(self->_aA3x)))
+/*@ clause post.table_consumed src=code-comment props=C01,C13 only=enforce */
 __CPROVER_ensures(cap_o == cap_size && cap_k == nA3x_)
